@@ -62,6 +62,7 @@ type World struct {
 	everSeen          map[wire.Hash]*wire.MsgTx
 	c09mode           bool
 	depositsInMempool bool
+	peers             []*sim.Env // further wallet instances watching the same node
 	reservedExtra     map[wire.OutPoint]bool
 	// options
 	allowNullData bool
@@ -568,7 +569,7 @@ func (w *World) actMine(t *rapid.T, announce bool) {
 		t.Fatalf("HARNESS: attach: %v\n  %s\n%s", err, w.journalTail(30), dumpBlock(blk))
 	}
 	if announce {
-		w.env.Announce(blk.MsgBlock())
+		w.announce(blk.MsgBlock())
 		w.tipAnnounced = true
 		w.logf("mine h=%d txs=%d (announced, queue=%d)", blk.Height(), len(blk.MsgBlock().Transactions)-1, len(w.env.Queue))
 		if len(w.env.Queue) >= 2 {
@@ -686,7 +687,7 @@ func (w *World) actReorg(t *rapid.T) {
 		}
 		prev, last = blk, blk
 	}
-	w.env.Announce(last.MsgBlock())
+	w.announce(last.MsgBlock())
 	w.tipAnnounced = true
 	w.flag(fmt.Sprintf("reorg-depth-%d", min(d, 4)))
 	if relevantRolled {
@@ -716,6 +717,14 @@ func filterTx(txs []*wire.MsgTx, drop map[wire.Hash]bool) []*wire.MsgTx {
 		}
 	}
 	return out
+}
+
+// announce queues a tip notification for every wallet instance watching the node.
+func (w *World) announce(b *wire.MsgBlock) {
+	w.env.Announce(b)
+	for _, p := range w.peers {
+		p.Announce(b)
+	}
 }
 
 // actDeliver processes one queued notification (errors on stale tips are legitimate).
